@@ -15,7 +15,8 @@ import re
 import vlib
 
 PROOFS = ["MgProof.C08.Lemmas", "MgProof.C08.Frame", "MgProof.C08.StepW", "MgProof.C08.StepW2",
-          "MgProof.C08.StepR", "MgProof.C08.Main", "MgProof.C08.Crash", "MgProof.C08.Props"]
+          "MgProof.C08.StepR", "MgProof.C08.Main", "MgProof.C08.Crash", "MgProof.C08.HB", "MgProof.C08.HBStep",
+          "MgProof.C08.HBStep2", "MgProof.C08.HBStep3", "MgProof.C08.Props"]
 GREP = ["MgModel/C08", "MgProof/C08", "MgModel/Common", "Drv/C08.lean"]
 REPO_SRCS = ["muggle/c/sync/shm_ring_buffer.c", "muggle/c/sync/spinlock.c",
              "muggle/c/base/thread.c", "muggle/c/base/utils.c"]
